@@ -1041,6 +1041,25 @@ func c17Run(c *core.Ctx) {
 }
 
 func c17Replay(c *core.Ctx, payload json.RawMessage) {
+	if c17NestedReplay(c, payload) {
+		return
+	}
+	var fam struct {
+		Family string   `json:"family"`
+		P      []string `json:"p"`
+		K      []string `json:"k"`
+	}
+	if json.Unmarshal(payload, &fam) == nil && (fam.Family == "spelled" || fam.Family == "wide-keys") {
+		defer func() { c17OnlySeq = nil }()
+		if fam.Family == "spelled" {
+			c17OnlySeq = fam.P
+			c17SpelledRun(c)
+		} else {
+			c17OnlySeq = fam.K
+			c17WideRun(c)
+		}
+		return
+	}
 	var p c17Payload
 	if err := json.Unmarshal(payload, &p); err != nil {
 		fmt.Println("bad payload:", err)
